@@ -7,7 +7,9 @@ import (
 	"regexp"
 	"strings"
 
+	"gedverif/internal/e1"
 	"gedverif/internal/load"
+	"gedverif/internal/oblig"
 	"gedverif/internal/su"
 
 	"golang.org/x/tools/go/ssa"
@@ -520,4 +522,37 @@ func goSyntaxPrefix(p *load.Prog) (bool, string) {
 		return false, "no slice in SimilarityOptions.String"
 	}
 	return true, ""
+}
+
+// recoverObligations: every recovering frame reachable from the entries hands
+// the recovered panic to its caller as an error (rule <prefix>.v).
+func recoverObligations(p *load.Prog, r *oblig.Run, prefix string, entries []*ssa.Function, floor int) {
+	rule := prefix + ".v"
+	r.Rule(rule, "a frame that recovers from a panic reports it: the recovering closure assigns the function's named error result, which is what the function returns after the recovery", floor)
+	for _, fn := range reachSet(p, entries) {
+		if fn.Synthetic != "" || len(fn.Blocks) == 0 {
+			continue
+		}
+		d := e1.Recovers(fn)
+		if d == nil {
+			continue
+		}
+		// a function without an error result that recovers swallows on purpose (a probe that answers nil, a notification
+		// that may find its channel closed); the rule is about functions whose contract is "a value or an error"
+		hasErr := false
+		for i := 0; i < fn.Signature.Results().Len(); i++ {
+			if types.Identical(fn.Signature.Results().At(i).Type(), types.Universe.Lookup("error").Type()) {
+				hasErr = true
+			}
+		}
+		if !hasErr {
+			continue
+		}
+		o := r.Add(rule, "recover in "+load.FuncName(fn), p.Pos(d.Pos()), "what "+load.FuncName(fn)+" returns after a recovered panic")
+		if ok, why := e1.RecoverReports(fn, d); ok {
+			o.OK("the closure assigns the named error result")
+		} else {
+			o.Fail(load.FuncName(fn) + " recovers from panics but does not report them: " + why + " - the caller continues with a nil/zero result as if nothing had happened")
+		}
+	}
 }
